@@ -95,7 +95,11 @@ def inject(sp, c, r):
         ops[i]['name'] = L(int(c[5:]))
         return f'{ops[i]["op"]} name'
     if c in ('set-name-256', 'set-name-255'):
-        i = some_obj()
+        # (an object whose name is used once: moving one of two same-named objects to another set is KF-C07's input class)
+        uniq = [i for i in objs if sum(1 for j in objs if ops[j]['op'] == ops[i]['op'] and ops[j]['name'] == ops[i]['name']) == 1]
+        i = r.choice(uniq) if uniq else some_obj(['comment'])
+        if not uniq:
+            ops[i]['name'] = 'UNIQUE-NAME-FOR-SET'
         ops[i]['set_name'] = L(int(c[9:]))
         return f'{ops[i]["op"]} set name'
     if c in ('ident-value-256', 'ident-255', 'empty-ident'):
